@@ -87,8 +87,8 @@ FoldOcc(S, occ, d, i, off, rem) ==
          IF o[2] # d THEN FoldOcc(S, occ, d, i + 1, off, rem)
          ELSE IF o[1] = "recv"
               THEN LET p == o[3]
-                       booked == off + (IF cfg.devs[d].offmod # 0 /\ ~S.part[p].batch /\ S.part[p].seq % 2 = 0
-                                        THEN cfg.devs[d].offmod ELSE 0) IN
+                       booked == off + (IF ~S.part[p].batch /\ S.part[p].seq % 2 = 0
+                                        THEN cfg.devs[d].offmod + cfg.devs[d].offmod2 ELSE 0) IN
                    FoldOcc(S, occ, d, i + 1, 0, Max(0, CycleInEffect(S, d, p) + booked))
               ELSE FoldOcc(S, occ, d, i + 1, off + cfg.devs[d].foff, rem)
 OwedAtAccept(S, aux, occ, d, i) ==      \* what the i-th occurrence (a receipt at d) owes
@@ -468,18 +468,24 @@ C08(pre, ev, post, aux) ==
                             /\ SubSeq(post.dev[d].collected, Len(pre.dev[d].collected) + 1, Len(post.dev[d].collected))
                                   = [i \in DOMAIN Occ(ev, "recv", d) |-> Occ(ev, "recv", d)[i][3]])
     \cup C("C08.IdleLongestReceives",
-           \* one hand-over from the dispatching device u to a single-slot x: no other single-slot downstream of u
-           \* that would have taken the part had been idle longer (or equally long but earlier in u's list)
+           \* one hand-over from the dispatching device u to a single-slot x, directly or through one open gate /
+           \* junction: no other single-slot device reachable the same way that would have taken the part had been
+           \* idle longer (directly connected devices that have been idle equally long are served in list order)
            (IsStep(ev) /\ ev.kind = "pass" /\ ~ev.cancelled /\ Len(ev.occ) >= 1 /\ ev.occ[1][1] = "recv" /\ ev.asset \in Devs) =>
               LET u == ev.asset
                   x == ev.occ[1][2]
                   p == ev.occ[1][3]
                   ds == pre.down[u]
-                  Pos(y) == CHOOSE i \in DOMAIN ds : ds[i] = y IN
-              (x \in Range(ds) /\ SingleSlotKind(x) /\ p \in DOMAIN pre.part) =>
-                 \A y \in Range(ds) \ {x} :
-                    (SingleSlotKind(y) /\ WouldTake(pre, y, p, 0)) =>
-                        (aux.idle[x] < aux.idle[y] \/ (aux.idle[x] = aux.idle[y] /\ Pos(x) < Pos(y))))
+                  Pos(y) == CHOOSE i \in DOMAIN ds : ds[i] = y
+                  Open(g) == Kind(g) \in {"gate", "junction"} /\ ~pre.dev[g].blocked /\ Pred(pre, g, p)
+                  direct == {y \in Range(ds) : SingleSlotKind(y)}
+                  behind == UNION {{y \in Range(pre.down[g]) : SingleSlotKind(y)} : g \in {h \in Range(ds) : Open(h)}}
+              IN
+              (x \in direct \cup behind /\ p \in DOMAIN pre.part) =>
+                 \A y \in (direct \cup behind) \ {x} :
+                    WouldTake(pre, y, p, 0) =>
+                        (aux.idle[x] < aux.idle[y]
+                         \/ (aux.idle[x] = aux.idle[y] /\ (x \in direct /\ y \in direct => Pos(x) < Pos(y)))))
 
 (***************************************************************************)
 (* C17  batching keeps order and exact batch sizes                         *)
